@@ -209,12 +209,19 @@ class PseudoClass(Simple):
 class PseudoElement(Simple):
     is_pe = True
 
-    def __init__(self, name, colons):
-        super().__init__('pelem:%dcolon' % colons, (0, 0, 1), name=name, colons=colons)
+    def __init__(self, name, colons, arg=None):
+        super().__init__('pelem:%dcolon' % colons + (':func' if arg else ''), (0, 0, 1), name=name, colons=colons, arg=arg)
 
     def render(self, w):
         w.lit(':' * self.colons)
         w.name(self.name, 'pseudo', ci=True)
+        if self.arg:
+            # a pseudo-element with an argument (::slotted(b), ::part(b)): counted like any pseudo-element
+            w.lit('(')
+            w.gap('gap:func')
+            w.lit(self.arg)
+            w.gap('gap:func')
+            w.lit(')')
 
 
 class Not(Simple):
@@ -239,7 +246,7 @@ ATTRS = (
     + [Attr('b', prefix='p')]
 )
 PSEUDO_CLASSES = [PseudoClass('hover'), PseudoClass('nth-child', 'an+b'), PseudoClass('lang', 'en')]
-PSEUDO_ELEMENTS = [PseudoElement('before', 2), PseudoElement('first-line', 1), PseudoElement('selection', 2)]
+PSEUDO_ELEMENTS = [PseudoElement('before', 2), PseudoElement('first-line', 1), PseudoElement('selection', 2), PseudoElement('slotted', 2, 'b')]
 PLAIN = [Id('i'), Class('c')] + ATTRS + PSEUDO_CLASSES
 NEGATIONS = [Not(x) for x in TYPE_SELECTORS + PLAIN]  # the non-negation subset; pseudo-elements may not be negated
 
